@@ -201,7 +201,19 @@ def _execute_threaded(case):
         wire2 = oracle.Wire(w.socks[-1])
         closes = [f for f in wire2.frames if f.opcode == peer.OP_CLOSE]
         first_idx = last[0].index
+        # a close() whose first line ran after the new connection state was
+        # installed is a close() OF the new connection (made while it was
+        # still connecting): that the new connection then refuses sends is
+        # what close() means; only calls that began on the old connection
+        # must leave the new one alone
+        t_new = sched.state_created[-1] if sched.state_created else None
+        late_close = t_new is not None and any(
+            st_ > t_new for _, st_ in sched.close_began)
+        if late_close:
+            res.stats['probe:close_called_on_the_new_connection'] += 1
         for c in tr.calls:
+            if late_close:
+                break
             if c.at_event is None or c.at_event < first_idx:
                 continue
             if c.outcome == 'raised' and c.exc in ('WebSocketClosing',
